@@ -345,6 +345,9 @@ pub struct RunOut {
     pub end_objects: usize,
     pub peak_stack_height: usize,
     pub host_fails_fired: u64,
+    /// the memory limit the run was really subject to (None while swept memory is quarantined:
+    /// the controller then keeps the limit out of reach)
+    pub enforced_mem_limit: Option<usize>,
     pub host_swallowed: u64,
     pub host_swallowed_kinds: Vec<String>,
     pub max_reenter_depth: u64,
@@ -428,6 +431,7 @@ pub fn collect(
         end_objects,
         peak_stack_height: 0,
         host_fails_fired: vm.auxiliary_data.fails_fired,
+        enforced_mem_limit: None,
         host_swallowed: vm.auxiliary_data.swallowed,
         host_swallowed_kinds: vm.auxiliary_data.swallowed_kinds.clone(),
         max_reenter_depth: vm.auxiliary_data.max_reenter_depth,
@@ -508,6 +512,7 @@ pub fn run_program(
     plan: HostPlan,
 ) -> RunOut {
     let want_events = cfg.event_log;
+    let enforced = if cfg.quarantine { None } else { Some(knobs.mem_limit) };
     let ctl = VmCtl::new(cfg);
     ctl.install();
     let Some(mut vm) = new_vm(&ctl, knobs, plan) else {
@@ -521,6 +526,7 @@ pub fn run_program(
     teardown(vm, &ctl, &mut out);
     VmCtl::uninstall();
     out.counters = ctl.counters();
+    out.enforced_mem_limit = enforced;
     out.event_hash = ctl.event_hash();
     if want_events {
         out.events = ctl.take_events();
@@ -545,6 +551,7 @@ pub fn empty_out() -> RunOut {
         end_objects: 0,
         peak_stack_height: 0,
         host_fails_fired: 0,
+        enforced_mem_limit: None,
         host_swallowed: 0,
         host_swallowed_kinds: vec![],
         max_reenter_depth: 0,
